@@ -38,6 +38,7 @@ TEXT_SPECIALS = [
     "\t", "\n", "\r", "\x00", "\x01", "\x08", "\x0b", "\x0c", "\x0e", "\x1f", "\x7f", "\x85", "\xa0",
     "\xe9", "\u20ac", "\U0001F600", "e\u0301", "\ufeff", "\u2028", "\ufffd", "\uffff",
     " ", "%s", "{0}", "\\",
+    "\u3042",  # representable in the stateful codecs below: the ASCII that follows it is written while the encoder is shifted
 ]
 NAME_SPECIALS = [
     b"A&B", b"A<B", b"A>B", b'A"B', b"A'B", b"A]]>B", b"A&amp;B", b'A"><x y="B', b'A"/><figure name="B',
@@ -51,10 +52,13 @@ PAGE2 = ["vertical-stack+text", "rect-only", "empty", "no /Contents entry", "/Co
 
 LAPARAMS = [None, {}, {"boxes_flow": None}, {"all_texts": True}, {"detect_vertical": True, "all_texts": True}]
 CODECS = ["utf-8", "utf-16", "utf-32", "latin-1"]
+# codecs whose encoder carries a shift state from one write to the next (ISO-2022 escape sequences, UTF-7 base64 runs):
+# what reaches a binary sink must still decode, as one stream, to the same characters (default LAParams only)
+STATEFUL_CODECS = ["iso2022_jp", "utf-7"]
 
 BOUNDS = {
     "quick": "all single-slot deviations over the full alphabets (36 text / 28 name specials, 3 page-2 variants) + all "
-             "slot pairs over the 6-element core alphabets; all ordered pairs of 9 documents with equal object numbers but different fonts converted one after the other in one process (4 entry points); option grid: 5 LAParams x {extract_text(), text, xml x strip_control} x {StringIO, BytesIO x 4 codecs} "
+             "slot pairs over the 6-element core alphabets; all ordered pairs of 9 documents with equal object numbers but different fonts converted one after the other in one process (4 entry points); option grid: 5 LAParams x {extract_text(), text, xml x strip_control} x {StringIO, BytesIO x 4 codecs (+ the stateful codecs iso2022_jp and utf-7 under the default LAParams)} "
              "for documents with <= 1 special slot; for two-slot documents the BytesIO x codec part only under the default LAParams",
     "thorough": "all choice vectors with <= 2 non-default slots over the full alphabets; same option grids and document pairs; "
                 "text sinks (StringIO, extract_text) additionally with codec in {utf-8, latin-1, ascii} under the default LAParams (both tiers); "
@@ -727,7 +731,7 @@ def grid(la, full: bool):
             for codec in (TEXT_SINK_CODECS if la == {} and output == "text" else TEXT_SINK_CODECS[:1]):
                 yield output, "str", codec, strip
             if wide:
-                for codec in CODECS:
+                for codec in CODECS + (STATEFUL_CODECS if la == {} else []):
                     yield output, "bytes", codec, strip
     if full and la == {}:
         yield "xml", "imgdir", "utf-8", True  # XMLConverter with an ImageWriter (output_dir)
